@@ -406,6 +406,9 @@ Proof.
       * simpl in Hn. inversion Hn as [|? ? Hnot _]; subst. intro Heq. apply Hnot. left. unfold hit_scope. simpl. congruence.
 Qed.
 
+Lemma path_empty_false_iff : forall c, path_empty c = false <-> cn_path c <> [].
+Proof. intros [m p]. unfold path_empty. simpl. destruct p; split; intro H; congruence. Qed.
+
 Section ResolveRef.
   Local Opaque tail_walk.
   Variable tbl : table.
@@ -432,13 +435,16 @@ Section ResolveRef.
         inversion H0; subst. inversion H1; subst. exfalso. eapply Hnone; eassumption.
       + rewrite Hs. simpl. split.
         * intro H. destruct (tail_walk tbl st ((n, l) :: rest)) as [tgt| |] eqn:Et; try discriminate.
+          destruct (path_empty (sc_cn tgt)) eqn:Ep; [discriminate|].
           inversion H; subst. exists n, l, rest, vs, s, st, tgt.
           split; [reflexivity|]. split; [reflexivity|]. split; [exists e; exact Hv|]. split; [exact Huniq|].
-          split; [exact Hst|]. split; [|reflexivity]. apply tail_walk_ok_iff in Et. exact Et.
-        * intros [n' [l' [rest' [vs' [s' [st' [tgt [H0 [H1 [[e' Hv'] [Hu' [Hst' [Ht Hcn]]]]]]]]]]]]].
+          split; [exact Hst|]. split; [apply tail_walk_ok_iff in Et; exact Et|]. split; [reflexivity|].
+          apply path_empty_false_iff. exact Ep.
+        * intros [n' [l' [rest' [vs' [s' [st' [tgt [H0 [H1 [[e' Hv'] [Hu' [Hst' [Ht [Hcn Hne]]]]]]]]]]]]]].
           inversion H0; subst n' l' rest'. inversion H1; subst vs'.
           assert (s' = s) by (eapply Huniq; eassumption). subst s'. rewrite Hst in Hst'. inversion Hst'; subst st'.
-          apply (tail_walk_ok_iff tbl ((n, l) :: rest)) in Ht. rewrite Ht. subst cn. reflexivity.
+          apply (tail_walk_ok_iff tbl ((n, l) :: rest)) in Ht. rewrite Ht. subst cn.
+          apply path_empty_false_iff in Hne. rewrite Hne. reflexivity.
       + rewrite Hs. simpl. destruct f as [sf stf]. split; [discriminate|].
         intros [n' [l' [rest' [vs' [s' [st' [tgt [H0 [H1' [[e' Hv'] [Hu' _]]]]]]]]]]].
         inversion H0; subst n' l' rest'. inversion H1'; subst vs'.
@@ -458,7 +464,8 @@ Section ResolveRef.
                        (r_local (rs_ref rs)) vs None []) as [[found aerrs]|]; [|discriminate].
       destruct found as [[sf stf]|].
       - rewrite app_nil_r in H. destruct aerrs as [|a aerrs'].
-        + destruct (tail_walk tbl stf ((n, l) :: rest)); inversion H; subst; split; intro; try congruence; try discriminate.
+        + destruct (tail_walk tbl stf ((n, l) :: rest)) as [tgt| |]; [destruct (path_empty (sc_cn tgt))| |];
+            inversion H; subst; split; intro; try congruence; try discriminate.
         + inversion H; subst. split; intro; [discriminate|reflexivity].
       - inversion H; subst. split; intro; [|reflexivity]. destruct aerrs; discriminate. }
     split; [exact Hshape|]. split.
@@ -493,7 +500,26 @@ Section ResolveRef.
     rewrite Hs. destruct f as [sf stf]. rewrite app_nil_r. exists e, errs. split; [|exact Hk].
     destruct had; reflexivity.
   Qed.
+  (* the name of an imported module by itself is rejected; a resolved reference never names a module *)
+  Lemma resolved_is_not_module_lem : forall cn,
+    resolve_ref tbl mods false rs = Some (Some cn, []) -> cn_path cn <> [].
+  Proof.
+    intros cn H. apply resolve_unique_lem in H.
+    destruct H as [n [l [rest [vs' [s [st [tgt [_ [_ [_ [_ [_ [_ [_ Hne]]]]]]]]]]]]]]. exact Hne.
+  Qed.
 End ResolveRef.
+
+Lemma module_as_value_rejected_lem : forall tbl mods rs n l rest vs s st tgt,
+  r_names (rs_ref rs) = (n, l) :: rest -> visible_scopes mods (rs_site rs) = Some vs ->
+  search tbl (st_mod (rs_site rs)) (r_line (rs_ref rs)) n (current_scope (rs_site rs)) (r_local (rs_ref rs)) vs None []
+    = Some (Some (s, st), []) ->
+  tail_walk tbl st ((n, l) :: rest) = TOk tgt -> cn_path (sc_cn tgt) = [] ->
+  resolve_ref tbl mods false rs
+  = Some (None, [Err KModule (st_mod (rs_site rs)) (r_line (rs_ref rs)) (fst (last ((n, l) :: rest) ("", 0%N))) []]).
+Proof.
+  intros tbl mods rs n l rest vs s st tgt En Hv Hs Ht Hp. unfold resolve_ref. rewrite En, Hv, Hs.
+  cbn [app]. rewrite Ht. unfold path_empty. rewrite Hp. reflexivity.
+Qed.
 
 (* the is_local_name exception, stated with the visibility relation only *)
 Lemma local_innermost_vis_lem : forall tbl file line n cur vs s st,
